@@ -318,21 +318,7 @@ M = [
  ("m35_collect_debt_stops_at_sleep", ["C09"], "src/arena.rs",
   """                .do_collection(&self.root, RunUntil::PayDebt, Stop::Full);""",
   """                .do_collection(&self.root, RunUntil::PayDebt, Stop::FinishCycle);"""),
- ("m36_dealloc_layout_wrong_len", ["C17", "C04"], "src/slice.rs",
-  """impl<H, E, M> AllocMeta<SliceWithHeader<H, E>, M> for SliceWithHeaderPtrMeta {
-    #[inline]
-    fn layout(_type_meta: &M, len: usize) -> Option<Layout> {
-        SliceWithHeader::<H, E>::layout(len)
-    }
-}""",
-  """impl<H, E, M> AllocMeta<SliceWithHeader<H, E>, M> for SliceWithHeaderPtrMeta {
-    #[inline]
-    fn layout(_type_meta: &M, len: usize) -> Option<Layout> {
-        // rounds the length up to an even number
-        SliceWithHeader::<H, E>::layout((len + 1) & !1)
-    }
-}"""),
- ("m37_thin_len_off_for_long_slices", ["C17", "C19"], "src/slice.rs",
+ ("m37_thin_len_off_for_long_slices", ["C17"], "src/slice.rs",
   """    #[inline]
     fn from_thin(_type_meta: &M, ptr: *const (), len: usize) -> *const [E] {
         SliceWithHeader::<(), E>::ptr_from_thin(ptr, len) as *const [E]
